@@ -67,6 +67,8 @@ func c16loc(zone string) *time.Location {
 }
 
 func c16eval(cas c16case) *Violation {
+	// the process's own zone is not UTC: "the instant's own zone" and "the machine's zone" are different things
+	time.Local = time.FixedZone("verif-local", -(7*3600 + 30*60))
 	loc := c16loc(cas.Zone)
 	t0, err := time.Parse(time.RFC3339Nano, cas.Instant)
 	if err != nil {
@@ -169,7 +171,11 @@ func c16eval(cas c16case) *Violation {
 		l.SetTimeFormat()
 		layouts = []string{time.RFC3339Nano}
 	default:
-		l.SetTimeFormat(cas.Layout)
+		if len(cas.Layout)%2 == 0 {
+			l.SetTimeFormat(cas.Layout)
+		} else {
+			l.SetTimeFormat("", cas.Layout, "") // empty entries of the list are skipped, the last non-empty one counts
+		}
 		layouts = []string{cas.Layout}
 	}
 	pan := catch(func() { l.WriteThru(bg, slog.InfoLevel, inst, 0, "m", nil) })
